@@ -72,6 +72,13 @@ pub enum Op {
     NewFromArena { slot: u8 },
     /// read_n into the slot's arena, push the first part (borrowed + anchor), hold the last `keep` bytes.
     AnchoredPush { slot: u8, off: u32, len: u32, keep: u16 },
+    /// read_n one record into the slot's arena, then push several *windows* of it borrowed
+    /// (each `(start, len)` in 1/256ths of the record: they may come in any order, overlap or
+    /// repeat - a header pushed after a body, the same record twice) and the record's anchor once at the end.
+    AnchoredWindows { slot: u8, off: u32, len: u32, windows: Vec<(u8, u8)> },
+    /// `extend` with an iterator supplied by the caller that panics after yielding `after` slices
+    /// (the panic is caught and the iovec is used again).
+    ExtendPanicking { slot: u8, parts: Vec<(u32, u16)>, after: u8 },
     /// read_n into the slot's arena and keep the AnchoredSlice.
     Hold { slot: u8, off: u32, len: u32 },
     HeldSplit { idx: u8, mid: u16 },
@@ -547,6 +554,79 @@ impl World {
                     self.stats.anchored_pushes += 1;
                     self.slots[si].has_anchored = true;
                 }
+            }
+            Op::AnchoredWindows { slot, off, len, windows } => {
+                let si = self.pick_slot(*slot);
+                let b = pool_slice(*off, (*len).clamp(2, 9000));
+                let mut src = b;
+                let anchored = self.slots[si]
+                    .io
+                    .arena()
+                    .read_n(&mut src, b.len(), NonZeroUsize::new(3).unwrap())
+                    .map_err(|e| fail("read_n:error", format!("read_n from a slice failed: {e}")))?;
+                let (_io, slice, anchor) = unsafe { anchored.components() };
+                let whole: &'static [u8] = unsafe { std::slice::from_raw_parts(slice.as_ptr(), slice.len()) };
+                let n = whole.len();
+                let mut all = vec![];
+                let mut parts: Vec<&'static [u8]> = vec![];
+                for (start, wlen) in windows.iter().take(4) {
+                    let a = (*start as usize * n) >> 8;
+                    let l = (1 + ((*wlen as usize * n) >> 8)).min(n - a);
+                    if l > 0 {
+                        parts.push(&whole[a..a + l]);
+                        all.extend_from_slice(&b[a..a + l]);
+                    }
+                }
+                if !parts.is_empty() {
+                    self.append(si, &all, |io| {
+                        for p in &parts {
+                            io.push_borrowed(p);
+                        }
+                        io.push_anchor(anchor);
+                    });
+                    self.stats.anchored_pushes += 1;
+                    self.slots[si].has_anchored = true;
+                    self.slots[si].may_alias = true;
+                }
+            }
+            Op::ExtendPanicking { slot, parts, after } => {
+                let si = self.pick_slot(*slot);
+                let slices: Vec<&'static [u8]> = parts.iter().map(|(o, l)| pool_slice(*o, *l as u32)).filter(|s| !s.is_empty()).collect();
+                let after = (*after as usize).min(slices.len());
+                let before_total = self.slots[si].io.total_size();
+                let yielded = std::cell::Cell::new(0usize);
+                let r = panics::catch(|| {
+                    let it = slices.iter().map(|s| {
+                        if yielded.get() == after {
+                            panic!("the caller's iterator gives up");
+                        }
+                        yielded.set(yielded.get() + 1);
+                        IoSlice::new(s)
+                    });
+                    self.slots[si].io.extend(it);
+                });
+                // What `extend` keeps of an iterator that panics is its own business (the slices
+                // yielded so far, or none): the iovec must be one of those, and stay sound.
+                let got = self.slots[si].io.total_size() - before_total;
+                let mut kept = None;
+                let mut acc = 0usize;
+                for j in 0..=after {
+                    if acc == got {
+                        kept = Some(j);
+                        break;
+                    }
+                    if j < after {
+                        acc += slices[j].len();
+                    }
+                }
+                let Some(kept) = kept else {
+                    return Err(fail("extend:after-panic", format!("after the caller's iterator panicked (having yielded {after} slices) the iovec grew by {got} bytes, which is no prefix of what was yielded")));
+                };
+                if r.is_ok() && after < slices.len() {
+                    return Err(fail("extend:after-panic", "the caller's panic vanished inside extend".to_string()));
+                }
+                let all: Vec<u8> = slices[..kept].concat();
+                self.append(si, &all, |_io| {});
             }
             Op::Hold { slot, off, len } => {
                 let si = self.pick_slot(*slot);
@@ -1127,6 +1207,8 @@ fn op_name(op: &Op) -> &'static str {
         Op::SwapArenas { .. } => "swap_arena",
         Op::NewFromArena { .. } => "new_from_arena",
         Op::AnchoredPush { .. } => "anchored_push",
+        Op::AnchoredWindows { .. } => "anchored_windows",
+        Op::ExtendPanicking { .. } => "extend(panicking)",
         Op::Hold { .. } => "read_n",
         Op::HeldSplit { .. } => "split_at",
         Op::HeldSkip { .. } => "skip_prefix",
@@ -1243,6 +1325,14 @@ pub fn op(mix: Mix) -> BoxedStrategy<Op> {
         3 => (slot(), any::<u32>(), size()).prop_map(|(slot, off, len)| Op::Push { slot, off, len }),
         1 => (slot(), parts()).prop_map(|(slot, parts)| Op::Extend { slot, parts }),
         2 => (slot(), any::<u32>(), prop_oneof![small_size(), 1000u32..5000], prop_oneof![3 => Just(0u16), 1 => 1u16..40]).prop_map(|(slot, off, len, keep)| Op::AnchoredPush { slot, off, len, keep }),
+        2 => (slot(), any::<u32>(), prop_oneof![16u32..40, 128u32..600, 1000u32..5000], prop_oneof![
+                // two halves, trailer first; the same window twice; overlapping windows; anything
+                2 => Just(vec![(128u8, 127u8), (0u8, 127u8)]),
+                1 => Just(vec![(0u8, 255u8), (0u8, 255u8)]),
+                2 => (0u8..200, 40u8..255).prop_map(|(a, l)| vec![(a, l), (a / 2, l)]),
+                3 => proptest::collection::vec((any::<u8>(), any::<u8>()), 1..4),
+            ]).prop_map(|(slot, off, len, windows)| Op::AnchoredWindows { slot, off, len, windows }),
+        1 => (slot(), parts(), 0u8..4).prop_map(|(slot, parts, after)| Op::ExtendPanicking { slot, parts, after }),
     ];
     let small_push = prop_oneof![
         2 => (slot(), any::<u32>(), small_size()).prop_map(|(slot, off, len)| Op::PushBorrowed { slot, off, len }),
